@@ -114,19 +114,39 @@ def run_chunk(cases):
                     if c != ps.Process(c.pid):
                         bad.append("children() holds an object of a former owner of pid %d" % c.pid)
             elif mode == "recycled":
-                # the caller's PID now belongs to a younger process
-                w.reap(s)
-                w.spawn(s, ppid=rows(e["tbl"])[s]["ppid"], start=9 * TICK)
-                for name, fn in (("children", p.children), ("children(recursive)", lambda: p.children(recursive=True)),
-                                 ("parent", p.parent), ("parents", p.parents)):
-                    try:
-                        bounded(fn)
-                        bad.append("%s() returned for a recycled caller PID" % name)
-                    except ps.NoSuchProcess as ex:
-                        if ex.pid != s:
-                            bad.append("%s(): NoSuchProcess carries pid %r" % (name, ex.pid))
-                    except Hang:
-                        bad.append("%s() did not return within %d s for a recycled caller PID (NoSuchProcess expected)" % (name, BUDGET))
+                # the caller's PID now belongs to a younger process; each walk is asked on an object
+                # of its own, after each thing a program may have done with the object before
+                calls = (("children", lambda q: q.children()), ("children(recursive)", lambda q: q.children(recursive=True)),
+                         ("parent", lambda q: q.parent()), ("parents", lambda q: q.parents()))
+                for prelude in ("none", "oneshot-children", "oneshot-is_running", "is_running", "waited", "as_dict"):
+                    for name, fn in calls:
+                        build(w, e["tbl"])
+                        ps.pids()
+                        q = ps.Process(s)
+                        cm = None
+                        if prelude.startswith("oneshot"):
+                            cm = q.oneshot()
+                            cm.__enter__()
+                            q.children() if prelude == "oneshot-children" else q.is_running()
+                        elif prelude == "is_running":
+                            q.is_running()
+                        elif prelude == "as_dict":
+                            q.as_dict(attrs=["ppid", "create_time", "status"])
+                        w.reap(s)
+                        if prelude == "waited":
+                            q.wait(0)           # not our child: returns None once the PID is free
+                        w.spawn(s, ppid=rows(e["tbl"])[s]["ppid"], start=9 * TICK)
+                        try:
+                            bounded(lambda: fn(q))
+                            bad.append("%s() returned for a recycled caller PID [before: %s]" % (name, prelude))
+                        except ps.NoSuchProcess as ex:
+                            if ex.pid != s:
+                                bad.append("%s(): NoSuchProcess carries pid %r" % (name, ex.pid))
+                        except Hang:
+                            bad.append("%s() did not return within %d s for a recycled caller PID (NoSuchProcess expected)" % (name, BUDGET))
+                        finally:
+                            if cm is not None:
+                                cm.__exit__(None, None, None)
             elif mode.startswith("vanish"):
                 # a listed process disappears at access k of the recursive walk
                 _, victim, k = mode.split(":")
